@@ -6,11 +6,11 @@ SNAP="/tmp/verif-snap-$$"; rm -rf "$SNAP"; mkdir -p "$SNAP"
 rsync -a --exclude target --exclude .git --exclude replays /verif/ "$SNAP/"
 trap 'rm -rf "$SNAP"' EXIT
 export MUT_WT=/tmp/aisverif-seed MUT_TARGET=/tmp/aisverif-seed-target
-OUT=/verif/seeded/results.txt
+OUT="${OUT:-/verif/seeded/results.txt}"
 names=("$@"); [ ${#names[@]} -eq 0 ] && names=($(ls -d /verif/seeded/*/ | xargs -n1 basename))
 for name in "${names[@]}"; do
   d="/verif/seeded/$name/patch.diff"; [ -f "$d" ] || continue
   echo "== $name" | tee -a "$OUT"
-  "$SNAP/tools/run_mutant.sh" "$d" C01 C02 C05 C06 C17 C18 C20 2>&1 | cut -c1-260 | tee -a "$OUT"
+  "$SNAP/tools/run_mutant.sh" "$d" ${CHECKS:-C01 C02 C05 C06 C17 C18 C20} 2>&1 | cut -c1-260 | tee -a "$OUT"
 done
 "$SNAP/tools/run_mutant.sh" --clean
